@@ -1337,6 +1337,236 @@ fn run_width<W: Prim>(kind: &str, t: &mut Toks) -> String {
     }
 }
 
+// ---------------------------------------------------------------- a sum whose merge refuses to overflow
+/// `cksum`: a user item with the observable behaviour of `Sum<i64>` (same tokens, same encoding, same Debug
+/// rendering) whose merge panics instead of overflowing, in every build profile.  A query over a range some
+/// contiguous part of which does not fit i64 may panic (caught by the runner, printed `p`); the tree must go on
+/// answering like the plain array afterwards (the plugin takes the refused queries out of the history).
+#[derive(Clone, Default)]
+struct CkSum {
+    v: i64,
+}
+impl Debug for CkSum {
+    fn fmt(&self, f: &mut std::fmt::Formatter<'_>) -> std::fmt::Result {
+        write!(f, "Sum {{ v: {} }}", self.v)
+    }
+}
+impl SegtreeItem for CkSum {
+    fn merge(left: &Self, right: &Self) -> Self {
+        CkSum { v: left.v.checked_add(right.v).expect("CkSum overflow") }
+    }
+}
+impl Kind for CkSum {
+    type M = ();
+    fn item(t: &mut Toks) -> Self {
+        CkSum { v: t.int() }
+    }
+    fn modifier(t: &mut Toks) -> () {
+        let _: i64 = t.int();
+    }
+    fn enc(&self) -> String {
+        format!("{}", self.v)
+    }
+    fn eval(p: &Pred, x: &Self) -> bool {
+        eval_z(p, x.v)
+    }
+}
+
+// ---------------------------------------------------------------- Combinator<MinAdd / MaxAdd, user item> side by side
+/// `Raise`: a lawful user item over the modifier type of MinAdd / MaxAdd (i64): merge = max, modify m: v = max(v, m),
+/// pending modifiers composed by max - they do NOT cancel when the adds of the other half do (+5 then -5, 0).
+#[derive(Clone, Debug)]
+struct Raise {
+    v: i64,
+    pend: Option<i64>,
+}
+impl Default for Raise {
+    fn default() -> Self {
+        Raise { v: i64::MIN, pend: None }
+    }
+}
+impl SegtreeItem<i64> for Raise {
+    fn merge(left: &Self, right: &Self) -> Self {
+        Raise { v: left.v.max(right.v), pend: None }
+    }
+    fn modify(&mut self, m: &i64) {
+        self.v = self.v.max(*m);
+        self.pend = Some(self.pend.map_or(*m, |p| p.max(*m)));
+    }
+    fn push(&mut self, left: &mut Self, right: &mut Self) {
+        if let Some(p) = self.pend.take() {
+            left.modify(&p);
+            right.modify(&p);
+        }
+    }
+}
+/// One half of a pair: built from the item token `v` / `v:md`, shown by its VALUE (what the plain array holds;
+/// the pending tag of an inner node returned by an exact-node query is the tree's own business).
+trait Half: SegtreeItem<i64> + Clone + Default + Debug {
+    fn mk(v: i64, md: i64) -> Self;
+    fn val(&self) -> String;
+}
+impl Half for MinAdd<i64> {
+    fn mk(v: i64, md: i64) -> Self {
+        let mut x = MinAdd::new(v);
+        x.md = md;
+        x
+    }
+    fn val(&self) -> String {
+        format!("{}", self.v)
+    }
+}
+impl Half for MaxAdd<i64> {
+    fn mk(v: i64, md: i64) -> Self {
+        let mut x = MaxAdd::new(v);
+        x.md = md;
+        x
+    }
+    fn val(&self) -> String {
+        format!("{}", self.v)
+    }
+}
+impl Half for Raise {
+    fn mk(v: i64, md: i64) -> Self {
+        // another value than the add halves hold; a tagged input item carries a pending raise of its own
+        Raise { v: v / 2 - 1, pend: if md != 0 { Some(md) } else { None } }
+    }
+    fn val(&self) -> String {
+        format!("{}", self.v)
+    }
+}
+impl<A: Half, B: Half> Half for Combinator<A, B> {
+    fn mk(v: i64, md: i64) -> Self {
+        Combinator(A::mk(v, md), B::mk(v, md))
+    }
+    fn val(&self) -> String {
+        format!("{}|{}", self.0.val(), self.1.val())
+    }
+}
+/// The plain array of the property text, for any item type: modify = `T::modify` on every element of the range,
+/// query = left-to-right fold of `T::merge`.
+fn plain_ask<T: Half>(a: &[T], l: usize, r: usize) -> T {
+    let mut acc = a[l].clone();
+    for x in &a[l + 1..=r] {
+        acc = T::merge(&acc, x);
+    }
+    acc
+}
+/// `craise` (A = MinAdd, B = Raise) and `craise3` (A = MaxAdd, B = Combinator<MinAdd, Raise>): the history runs on
+/// Segtree<Combinator<A, B>>, on Segtree<A> and Segtree<B> side by side and on a plain array.  The observation is that
+/// of the FIRST half alone (all fields: the same line the kind minadd / maxadd prints, hence checked against the Coq
+/// model of that item); every answer is also compared by value with the two separate trees and the plain array: a
+/// difference prints the failure token `X ...` (an observation no model value equals and no specification accepts).
+fn run_pair<A: Half, B: Half>(t: &mut Toks, enc: fn(&A) -> String) -> String {
+    type P<A, B> = Combinator<A, B>;
+    let mut tp: Option<Segtree<P<A, B>, i64>> = None;
+    let mut ta: Option<Segtree<A, i64>> = None;
+    let mut tb: Option<Segtree<B, i64>> = None;
+    let mut plain: Vec<P<A, B>> = Vec::new();
+    let mut out: Vec<String> = Vec::new();
+    let rd = |t: &mut Toks| -> P<A, B> {
+        let (v, md) = t.int_md();
+        <P<A, B>>::mk(v, md)
+    };
+    while !t.done() {
+        let op = t.next();
+        let chunk: String = match op {
+            "new" | "slice" | "iter" => {
+                let xs: Vec<P<A, B>> = if op == "new" {
+                    let n: usize = t.int();
+                    let v = rd(t);
+                    vec![v; n]
+                } else {
+                    let k: usize = t.int();
+                    (0..k).map(|_| rd(t)).collect()
+                };
+                let n = xs.len();
+                let uniform = op == "new";
+                let r = vh::guarded(|| {
+                    let p = if uniform { Segtree::new(n, xs[0].clone()) } else if op == "slice" { Segtree::from_slice(&xs) } else { Segtree::from_iter(xs.iter().cloned()) };
+                    let a: Segtree<A, i64> = Segtree::from_iter(xs.iter().map(|x| x.0.clone()));
+                    let b: Segtree<B, i64> = Segtree::from_iter(xs.iter().map(|x| x.1.clone()));
+                    (p, a, b)
+                });
+                match r {
+                    Some((p, a, b)) if n > 0 => {
+                        tp = Some(p);
+                        ta = Some(a);
+                        tb = Some(b);
+                        plain = xs;
+                        "u".to_string()
+                    }
+                    _ => "p".to_string(),
+                }
+            }
+            "set" => {
+                let i: usize = t.int();
+                let v = rd(t);
+                match (tp.as_mut(), ta.as_mut(), tb.as_mut()) {
+                    (Some(p), Some(a), Some(b)) => {
+                        let ok = vh::guarded(|| p.set(i, v.clone())).is_some();
+                        if ok {
+                            a.set(i, v.0.clone());
+                            b.set(i, v.1.clone());
+                            plain[i] = v;
+                            "u".to_string()
+                        } else {
+                            "p".to_string()
+                        }
+                    }
+                    _ => "p".to_string(),
+                }
+            }
+            "mod" => {
+                let l: usize = t.int();
+                let r: usize = t.int();
+                let m: i64 = t.int();
+                match (tp.as_mut(), ta.as_mut(), tb.as_mut()) {
+                    (Some(p), Some(a), Some(b)) => {
+                        let ok = vh::guarded(|| p.modify(l, r, &m)).is_some();
+                        if ok {
+                            a.modify(l, r, &m);
+                            b.modify(l, r, &m);
+                            for x in &mut plain[l..=r] {
+                                x.modify(&m);
+                            }
+                            "u".to_string()
+                        } else {
+                            "p".to_string()
+                        }
+                    }
+                    _ => "p".to_string(),
+                }
+            }
+            "ask" => {
+                let l: usize = t.int();
+                let r: usize = t.int();
+                match (tp.as_mut(), ta.as_mut(), tb.as_mut()) {
+                    (Some(p), Some(a), Some(b)) => match vh::guarded(|| p.ask(l, r)) {
+                        None => "p".to_string(),
+                        Some(x) => {
+                            let side = format!("{}|{}", a.ask(l, r).val(), b.ask(l, r).val());
+                            let arr = plain_ask(&plain, l, r).val();
+                            if x.val() != side || x.val() != arr {
+                                format!("X pair={} side-by-side={} plain-array={}", x.val(), side, arr)
+                            } else {
+                                format!("i {}", enc(&x.0))
+                            }
+                        }
+                    },
+                    _ => "p".to_string(),
+                }
+            }
+            other => {
+                eprintln!("harness: unknown op {} for a pair kind", other);
+                std::process::exit(3)
+            }
+        };
+        out.push(chunk);
+    }
+    out.join("\t")
+}
+
 // ---------------------------------------------------------------- the history runner
 /// How the tokens of a history are turned into items of one item type and back.  The hand-written kinds
 /// implement `Kind` on the item type itself (`Own<T>` adapts them); the width kinds (`Wd<..>`, every built-in
@@ -1575,6 +1805,9 @@ fn main() {
             "combcat" => run::<Own<CCat>>(&mut t),
             "combunit" => run::<Own<CU>>(&mut t),
             "combflip" => run::<Own<CFl>>(&mut t),
+            "cksum" => run::<Own<CkSum>>(&mut t),
+            "craise" => run_pair::<MinAdd<i64>, Raise>(&mut t, |x| <MinAdd<i64> as Kind>::enc(x)),
+            "craise3" => run_pair::<MaxAdd<i64>, Combinator<MinAdd<i64>, Raise>>(&mut t, |x| <MaxAdd<i64> as Kind>::enc(x)),
             w if w.starts_with("w.") => {
                 let mut parts = w.splitn(3, '.');
                 let (_, ty, kind) = (parts.next(), parts.next().unwrap_or(""), parts.next().unwrap_or(""));
